@@ -21,7 +21,7 @@ META = {
     "bounds": {"quick": {"sub-project work": "1..4", "absence steps": "<= 2 in 0..5", "unit pairs": 8, "predecessor work": "0..2"}, "thorough": {"sub-project work": "1..6", "unit pairs": 12}},
     "outside": profiles.OUTSIDE + ["D = 0 (a zero-length sub-project still shows one WORKING step)", "non-dyadic non-integer unit ratios"],
 }
-REQUIRED_COVERS = {"any": ["absence-removed", "absence-kept", "ratio:gt1", "ratio:lt1", "refused", "waits-for-predecessor", "configured-twice", "sub-project-backward"]}
+REQUIRED_COVERS = {"any": ["absence-removed", "absence-kept", "ratio:gt1", "ratio:lt1", "refused", "waits-for-predecessor", "configured-twice", "sub-project-backward", "file-rewritten", "parent-through-json"]}
 
 
 def _sub_spec(p):
@@ -69,6 +69,15 @@ def configure(p, ctx):
         # absence steps that were really simulated, from the list given to the run (not from the project's own bookkeeping)
         n_abs = len(set(a for a in ctx.c([p["sa0"], p["sa1"]]) if 0 <= a < sub_time))
         completed = p["stage"] != "never" and all(int(t.state) == -1 for t in S.tasks)
+        if p.get("rewrite") and int(S.project.status) == 1:
+            # another task was configured from an older result stored under the same path before
+            S0 = build({"tasks": [{"w": 1}], "teams": profiles.layout_workers("shared1", 1), "run": {"max_time": 5}}, p, ctx.symbolic)
+            S0.project.unit_timedelta = sub_unit
+            S0.project.simulate(max_time=5)
+            S0.project.write_simple_json(path)
+            BaseSubProjectTask(file_path=path, name="old", ID="told").set_all_attributes_from_json(remove_absence_time_list=remove)
+            S.project.write_simple_json(path)
+            ctx.cover("file-rewritten")
         st = BaseSubProjectTask(file_path=path, name="sub", ID="t1")
         before = (st.default_work_amount, st.unit_timedelta, st.work_amount_progress_of_unit_step_time, st.remove_absence_time_list, st.remaining_work_amount)
         if p.get("twice") and int(S.project.status) == 1:
@@ -119,6 +128,23 @@ def configure(p, ctx):
         tm.extend_targeted_task_list([pred, st, succ])
         prj = BaseProject(init_datetime=datetime.datetime(2024, 1, 1), unit_timedelta=par_unit, workflow=BaseWorkflow([pred, st, succ]),
                           organization=BaseOrganization(team_list=[tm], workplace_list=[]))
+        if p.get("via_json"):
+            # the parent project is saved, loaded and related to its unit time again before it is simulated
+            pp = io.path("parent.json")
+            okw, rw = ctx.call(prj.write_simple_json, pp)
+            prj2 = BaseProject()
+            okr, rr = ctx.call(prj2.read_simple_json, pp) if okw else (False, rw)
+            if not (okw and okr):
+                ctx.fail("C20:parent-json-raised:%s" % exc_tag(rw if not okw else rr))
+                return
+            st = [t for t in prj2.workflow.task_list if t.ID == "t1"][0]
+            pred = [t for t in prj2.workflow.task_list if t.ID == "t0"][0]
+            ok, r = ctx.call(st.set_work_amount_progress_of_unit_step_time, prj2.unit_timedelta)
+            if not ok:
+                ctx.fail("C20:relate-after-load-raised:%s" % exc_tag(r))
+                return
+            prj = prj2
+            ctx.cover("parent-through-json")
         ok, r = ctx.call(prj.simulate, max_time=60)
         if not ok:
             ctx.fail("C20:parent-simulate-raised:%s" % exc_tag(r))
@@ -176,6 +202,14 @@ def obligations(tier, seed):
                             "cube": {"sub_s": ss, "par_s": ps, "remove": remove, "kind": kind, "stage": "success", "twice": twice},
                             "params": [["sw", 1, 6 if thorough else 4], ["sa0", 0, 6], ["sa1", 0, 6], ["pw", 0, 2]], "pre": "sa0 < sa1",
                             "timeout": 600 if thorough else 150, "engine": "zsym"})
+    for (ss, ps) in ((60, 120), (129600, 43200), (86400, 86400)):
+        obs.append({"name": "sub/%ds-in-%ds/parent-through-json" % (ss, ps), "harness": "configure",
+                    "cube": {"sub_s": ss, "par_s": ps, "remove": 1, "kind": 0, "stage": "success", "via_json": True},
+                    "params": [["sw", 1, 3], ["sa0", 0, 4], ["sa1", 1, 6], ["pw", 0, 1]], "pre": "sa0 < sa1", "timeout": 150, "engine": "zsym"})
+    for remove in (0, 1):
+        obs.append({"name": "sub/rewritten-file/remove=%d" % remove, "harness": "configure",
+                    "cube": {"sub_s": 60, "par_s": 60, "remove": remove, "kind": 0, "stage": "success", "pw": 1, "rewrite": True},
+                    "params": [["sw", 2, 4], ["sa0", 0, 3], ["sa1", 1, 6]], "pre": "sa0 < sa1", "timeout": 150, "engine": "zsym"})
     for remove in (0, 1):
         obs.append({"name": "sub/exact-max-time/remove=%d" % remove, "harness": "configure",
                     "cube": {"sub_s": 60, "par_s": 60, "remove": remove, "kind": 0, "stage": "success", "pw": 1},
